@@ -740,6 +740,7 @@ func (vc *FnVC) sprintfModel(st *State, c *ssa.CallCommon, rt types.Type) *Val {
 	}
 	t := pieces[0]
 	for _, p := range pieces[1:] {
+		vc.usedCat = true
 		t = sx("gs.cat", t, p)
 	}
 	return &Val{T: rt, S: vc.define("sprintf", "Str", t)}
